@@ -49,13 +49,14 @@ const (
 	EvHoldFrom    // script-only: messages released by Node from now on are held back (delayed) until EvFlush / end of script
 	EvFlush       // script-only: every held-back message becomes deliverable (holds stay in force for later messages)
 	EvDeliverHeld // script-only: deliver the oldest held-back (delayed) message from Node to Peer – exact message scheduling inside a script
+	EvDupHeld     // script-only: like EvDeliverHeld, but a copy of the message stays held back (a duplicate that arrives much later)
 	EvSendSnap    // script-only: the application at leader Node ships the snapshot its storage holds to Peer on its own initiative (a snapshot "ahead or behind" of what raft asked for, cf. testdata/snapshot_succeed_via_app_resp_behind.txt)
 	numEventKinds
 )
 
 var evNames = [...]string{"none", "Ready", "ReadyApply", "Advance", "Append", "Apply", "Local", "Deliver", "Drop", "Dup",
 	"Tick", "Campaign", "Propose", "ProposeConf", "ReadIndex", "Transfer", "ForgetLeader", "Unreachable", "ReportSnap",
-	"Compact", "Crash", "ReadyCrash", "AppendCrash", "Isolate", "Heal", "Cut", "Stop", "Delay", "PauseApply", "PauseAppend", "PauseReady", "HoldFrom", "Flush", "DeliverHeld", "SendSnapshot"}
+	"Compact", "Crash", "ReadyCrash", "AppendCrash", "Isolate", "Heal", "Cut", "Stop", "Delay", "PauseApply", "PauseAppend", "PauseReady", "HoldFrom", "Flush", "DeliverHeld", "DupHeld", "SendSnapshot"}
 
 func (k EventKind) String() string { return evNames[k] }
 
@@ -90,7 +91,7 @@ func (e Event) String() string {
 	switch e.Kind {
 	case EvDeliver, EvDrop, EvDup:
 		return fmt.Sprintf("%s(#%d)", e.Kind, e.Arg)
-	case EvTransfer, EvUnreachable, EvCut, EvSendSnap, EvDeliverHeld:
+	case EvTransfer, EvUnreachable, EvCut, EvSendSnap, EvDeliverHeld, EvDupHeld:
 		return fmt.Sprintf("%s(%d,%d)", e.Kind, e.Node, e.Peer)
 	case EvReportSnap:
 		return fmt.Sprintf("%s(%d,%d,fail=%d)", e.Kind, e.Node, e.Peer, e.Arg)
